@@ -253,6 +253,9 @@ func c04(args []string) int {
 		{Name: "exact/store/lifecycle+reset", Cfg: base, Alphabet: alphaD, Depth: d(4, 6), Seeds: seeds("W3 SW", "W3 SW W1"), Filter: g},
 		{Name: "exact/nostore/lifecycle+meta", Cfg: nostore, Alphabet: alphaD2, Depth: d(4, 6), Seeds: seeds("W3 SW", "W3 W3 SW LC:TRUNCATE W1 SW"), Filter: g},
 		{Name: "exact/store/swapdb", Cfg: base, Alphabet: alphaSwap, Depth: d(5, 7), Seeds: seeds("W3 SW"), Filter: g},
+		// right after a restart: snapshots and compactions taken before/without new application writes
+		{Name: "seeded/store/restart-then-snapshot", Cfg: base, Alphabet: strings.Fields("S SW FSNAP CMP:1 W1 LC:PASSIVE"), Depth: d(3, 4),
+			Seeds: seeds("W3 SW W1 SW KILL NEW", "W3 SW W1 S KILL NEW", "W3 SW W1 SW CL START", "W3 SW LC:TRUNCATE W1 SW KILL NEW"), Filter: g},
 		{Name: "merged/store/wide", Cfg: base, Alphabet: alphaWideD, Depth: d(7, 12), Seeds: seeds("W3 SW", "W3 SW W1 S"), Merge: true, MaxRuns: int64(d(5000, 200000)), Filter: g},
 		{Name: "merged/4k/wide", Cfg: k4, Alphabet: alphaWideD, Depth: d(6, 10), Seeds: seeds("W3 SW"), Merge: true, MaxRuns: int64(d(2500, 100000)), Filter: g},
 	}
